@@ -129,8 +129,11 @@ def set_shape(s, T):
     T = set(T)
     leaves = ref_complex.leaves_of(s, T)
     if any(len(s.entity(e).supers) > 1 for e in T):
-        # open finding: the matcher's treatment of entities with several supertypes is unsound in both directions;
-        # everything about such sets is keyed under one shape
+        # open finding: the matcher's treatment of entities with several supertypes is unsound in both directions.
+        # In the seed-independent two-root family every (graph, subset) has its own key, so that a change of behaviour on any
+        # single set is seen; in seed-dependent graphs everything about such sets is keyed under one shape
+        if s.name.startswith(('tra', 'trb')):
+            return 'set with a member that has several supertypes: %s {%s}' % (s.name, ','.join(sorted(T)))
         return 'set with a member that has several supertypes'
     if len(T) == 1:
         e = s.entity(list(T)[0])
@@ -235,6 +238,38 @@ def main(chk):
                     iid += 3
         for b in range(0, len(items), BATCH):
             jobs.append((li, lib, items[b:b + BATCH]))
+        # "refused with an error for that instance only": the same instances once more in the opposite file order, so that every
+        # set is also read AFTER larger (mostly refused) ones - a verdict must not depend on what was read before
+        ritems = list(reversed(items))
+        for b in range(0, len(ritems), BATCH):
+            jobs.append((li, lib, ritems[b:b + BATCH]))
+
+    # every ORDERED PAIR of candidate sets adjacent in one file (Eulerian circuit of the complete digraph over the connected
+    # subsets) for the small fixed two-root graphs: the verdict on a set must not depend on the set read just before it
+    for li, lib in enumerate(libs):
+        s = lib.schema
+        if not s.name.startswith('trb'):
+            continue
+        names = [e.name for e in s.entities if e.name != 'z']
+        nodes = [T for k in range(2, len(names) + 1) for T in itertools.combinations(names, k) if ref_complex.connected(s, frozenset(T))]
+        n = len(nodes)
+        nxt = [[j for j in range(n) if j != i] for i in range(n)]
+        stack, circuit = [0], []
+        while stack:                      # Hierholzer
+            v = stack[-1]
+            if nxt[v]:
+                stack.append(nxt[v].pop())
+            else:
+                circuit.append(stack.pop())
+        items = []
+        iid = 100000
+        for v in reversed(circuit):
+            items.append((iid, tuple(sorted(nodes[v]))))
+            meta[(li, iid)] = nodes[v]
+            iid += 3
+        chk.count('adjacent ordered pairs of sets (two-root family)', len(items) - 1)
+        for b in range(0, len(items), 200):
+            jobs.append((li, lib, items[max(0, b - 1):b + 200]))     # overlap by one: the pair across the cut is kept
 
     def work(j):
         li, lib, items = j
